@@ -80,8 +80,19 @@ def _peers(ctx, names):
         CI.x25519 = types.SimpleNamespace(scalar_mult=scalar_mult)
         CI.AES = _AesStub
         _AesStub.calls = []
-        cl = {p: types.SimpleNamespace(x25519_private=_Key(sec[p]), x25519_public=_Key(pub[p])) for p in names}
-        sv = {p: types.SimpleNamespace(x25519_public=_Key(pub[p])) for p in names}
+        # real Client/Server instances (whatever methods and class-level state the library gives them), with the nacl key
+        # objects replaced by holders of the symbolic secrets; all peers are reached under one (host, port): network
+        # coordinates identify no key
+        cl, sv = {}, {}
+        for p in names:
+            c = CI.Client.__new__(CI.Client)
+            c.ed25519_private, c.ed25519_public = _Key(_uf('ed_priv', sec[p], 32)), _Key(_uf('ed_pub', sec[p], 32))
+            c.x25519_private, c.x25519_public = _Key(sec[p]), _Key(pub[p])
+            cl[p] = c
+            v = CI.Server.__new__(CI.Server)
+            v.host, v.port = '127.0.0.1', 1
+            v.ed25519_public, v.x25519_public = _Key(_uf('ed_pub', sec[p], 32)), _Key(pub[p])
+            sv[p] = v
         return cl, sv, saved
     # concrete replay: the real primitives; AES.new is only observed (arguments recorded, call passed through)
     saved = (CI.x25519, CI.AES)
@@ -93,7 +104,7 @@ def _peers(ctx, names):
         return real_aes.new(key, mode, **kw)
     CI.AES = types.SimpleNamespace(MODE_CTR=real_aes.MODE_CTR, new=new)
     cl = {p: CI.Client(ctx.bytes_(f'secret_{p}', 32) or bytes(32)) for p in names}
-    sv = {p: CI.Server(p, 1, cl[p].ed25519_public.encode()) for p in names}
+    sv = {p: CI.Server('127.0.0.1', 1, cl[p].ed25519_public.encode()) for p in names}
     return cl, sv, saved
 
 
@@ -145,6 +156,203 @@ def h_channel(ctx, n, twin=None, order=None, third=False):
 h_channel.symkeys = True
 
 
+# ------------------------------------------------------------------------------- mnemonics and key derivation (glue)
+def _keys_module():
+    import pytoniq_core.crypto.keys        # noqa
+    return sys.modules['pytoniq_core.crypto.keys']
+
+
+def h_mnemonic(ctx, pos, base, password=None):
+    """generator and validator agree: the word list drawn by mnemonic_new() is accepted by mnemonic_is_valid(), and key
+    derivation from it is a function of the words alone.  Symbolic: the random draw of the word at position `pos`
+    (its index ranges over the window base..base+3 of the 2048-word list; the other 23 draws are concrete); PBKDF2 and the
+    Ed25519 key generation are uninterpreted functions (symbolic mode), so the seed test that ends the generator's loop is
+    a free boolean and only the first candidate is followed.  The concrete replay uses the real primitives and picks the 23
+    filler words so that the real seed test passes."""
+    import hashlib as _hl
+    import hmac as _hmac
+    KM = _keys_module()
+    n_words = len(KM.words)
+    lo2 = ctx.uint('draw', 2)
+    saved = (KM.os, KM.hashlib, KM.crypto_sign_seed_keypair)
+
+    def idx_bytes(i):
+        return bytes([(i >> 8) & 0xff, i & 0xff]) + bytes(9)
+
+    def filler(t):
+        return [(37 * j + 11 + 101 * t + (t >> 3) * 7 * j) % n_words for j in range(24)]
+
+    t = 0
+    if not ctx.symbolic:
+        # real primitives: search the filler for which the real seed test passes with the drawn word in place
+        want = base + lo2
+        while True:
+            idxs = filler(t)
+            idxs[pos] = want
+            ent = _hmac.new(' '.join(KM.words[i] for i in idxs).encode(), bytes(0), _hl.sha512).digest()
+            if _hl.pbkdf2_hmac('sha512', ent, b'TON seed version', max(1, KM.PBKDF_ITERATIONS // 256))[0] == 0:
+                break
+            t += 1
+            assert t < 20000
+    draws = []
+    for j, i in enumerate(filler(t)):
+        if j == pos:
+            b = base + lo2
+            draws.append(bytes([(base >> 8) & 0xff]) + (C.SymBytes.lift(bytes([base & 0xfc])) | C.SymBytes.lift(b'\x00')
+                         if False else _low_byte(ctx, base, lo2)) + bytes(9))
+        else:
+            draws.append(idx_bytes(i))
+    calls = [0]
+
+    def urandom(n):
+        k = calls[0]
+        calls[0] += 1
+        if k >= len(draws):
+            ctx.assume(False)               # only the first candidate of the generator's loop is followed (stated bound)
+        d = draws[k]
+        return d[:n] if n <= len(d) else d + bytes(n - len(d))
+
+    def pbkdf2_stub(name, password_, salt, iterations, dklen=None):
+        return C.uf_bytes(f'pbkdf2_{name}_{iterations}_' + bytes(salt).hex(), password_, 64)
+
+    def keypair_stub(seed):
+        return C.uf_bytes('ed25519_pk_of_seed', seed, 32), C.uf_bytes('ed25519_sk_of_seed', seed, 64)
+    KM.os = types.SimpleNamespace(urandom=urandom)
+    if ctx.symbolic:
+        KM.hashlib = types.SimpleNamespace(pbkdf2_hmac=pbkdf2_stub, sha512=_hl.sha512, sha256=_hl.sha256)
+        KM.crypto_sign_seed_keypair = keypair_stub
+    try:
+        m = KM.mnemonic_new() if password is None else KM.mnemonic_new(24, password)
+        ctx.require(isinstance(m, list) and len(m) == 24 and all(w in KM.words for w in m), 'mnemonic_new returns 24 words of the list')
+        ctx.require(_is(KM.mnemonic_is_valid(m), True), 'a generated mnemonic is valid')
+        ctx.require(_is(KM.mnemonic_is_valid(list(m)), True), 'validity is a function of the words (asked again, on a copy)')
+        ctx.require(_is(KM.mnemonic_is_valid(m[:23]), False), 'a mnemonic of 23 words is not valid')
+        k1 = KM.mnemonic_to_wallet_key(m)
+        k2 = KM.mnemonic_to_wallet_key(list(m))
+        ctx.require(And(k1[0] == k2[0], k1[1] == k2[1]), 'key derivation from a mnemonic is deterministic')
+        p1 = KM.mnemonic_to_private_key(m)
+        ent = _hmac.new(' '.join(m).encode(), bytes(0), _hl.sha512).digest()
+        seed = KM.hashlib.pbkdf2_hmac('sha512', ent, b'TON default seed', 100000)
+        pk, sk = KM.crypto_sign_seed_keypair(seed[:32])
+        ctx.require(And(p1[0] == pk, p1[1] == sk), 'private key = keypair(PBKDF2-HMAC-SHA512(HMAC-SHA512(words), "TON default seed", 100000)[:32])')
+        pk2, sk2 = KM.crypto_sign_seed_keypair(sk[:32])
+        ctx.require(And(k1[0] == pk2, k1[1] == sk2), 'wallet key = keypair(private key[:32])')
+    finally:
+        KM.os, KM.hashlib, KM.crypto_sign_seed_keypair = saved
+
+
+def _is(r, want):
+    """r is the boolean `want` (a symbolic boolean is compared by value)"""
+    if isinstance(r, C.SymBool):
+        return r if want else Not(r)
+    return r is want
+
+
+def _low_byte(ctx, base, lo2):
+    """one byte: the six high bits of base's low byte, then the two drawn bits"""
+    if isinstance(lo2, int):
+        return bytes([(base & 0xfc) | lo2])
+    return C.mkbytes(C.Bits.of_bv(z3.Concat(z3.BitVecVal((base & 0xff) >> 2, 6), z3.Extract(1, 0, C._lift(lo2)))))
+
+
+# ------------------------------------------------------------------------------- signatures (glue)
+def h_sign(ctx, n, alter):
+    """sign_message / Client.sign / verify_sign over an idealised Ed25519: for every key pair and message there is one
+    valid signature F(pk, m), F injective in its arguments (the unforgeability idealisation); the wrappers must produce
+    it, accept it under the matching key, and reject when the message, the key or the signature is another one"""
+    import pytoniq_core.crypto.signature      # noqa
+    SG = sys.modules['pytoniq_core.crypto.signature']
+    sk_seed = ctx.bytes_('seed', 32)
+    m = ctx.bytes_('msg', n)
+    if ctx.symbolic:
+        def pub(seed):
+            return _uf('ed25519_pub', seed, 32)
+
+        def F(pk, msg):
+            # the one valid signature of msg under pk: injective in (pk, msg) across all lengths - built from the engine's
+            # collision-free hash stub so that the injectivity axioms are instantiated by the engine
+            return sha256(b'ed25519 signature R' + pk + msg) + sha256(b'ed25519 signature S' + pk + msg)
+
+        class BadSig(Exception):
+            pass
+
+        class VK:
+            def __init__(self, key, *a, **k):
+                self.key = key
+
+            def verify(self, smessage, signature=None, *a, **k):
+                if signature is None:
+                    signature, smessage = smessage[:64], smessage[64:]
+                if len(signature) != 64 or not (C.SymBytes.lift(signature) == F(self.key, smessage)):
+                    raise BadSig('Signature was forged or corrupt')
+                return smessage
+
+            def encode(self):
+                return self.key
+
+        def crypto_sign(message, sk):
+            # libsodium secret key = seed || public key
+            return F(sk[32:], message) + message
+
+        class SKey:
+            def __init__(self, seed, *a, **k):
+                self.seed = seed
+                self.verify_key = VK(pub(seed))
+                self._signing_key = C.SymBytes.lift(seed) + pub(seed)
+
+            def encode(self):
+                return self.seed
+
+            def sign(self, message, *a, **k):
+                return F(self.verify_key.key, message) + message
+        class SM:
+            """nacl.signing.SignedMessage (a bytes subclass in the real package)"""
+            @classmethod
+            def _from_parts(cls, signature, message, combined):
+                o = cls()
+                o.signature, o.message, o.combined = signature, message, combined
+                return o
+        saved = (SG.VerifyKey, SG.exc, SG.crypto_sign, CI.ed25519Private, SG.SignedMessage)
+        SG.VerifyKey, SG.exc, SG.crypto_sign, SG.SignedMessage = VK, types.SimpleNamespace(BadSignatureError=BadSig), crypto_sign, SM
+        CI.ed25519Private = lambda seed=None, *a, **k: SKey(seed if seed is not None else a[0])
+        key = SKey(sk_seed)
+    else:
+        from nacl.signing import SigningKey
+        saved = None
+        key = SigningKey(sk_seed)
+    try:
+        pk = key.verify_key.encode()
+        sig = SG.sign_message(m, key._signing_key)
+        ctx.require(len(sig) == 64, 'signature is 64 bytes')
+        c = CI.Client.__new__(CI.Client)
+        c.ed25519_private, c.ed25519_public = key, key.verify_key
+        ctx.require(c.sign(m) == sig, 'Client.sign and sign_message give the same signature')
+        ctx.require(SG.verify_sign(pk, m, sig) is True, 'a signature verifies under the matching public key')
+        if alter == 'msg' and n:
+            d = ctx.bytes_('delta', n)
+            ctx.assume(Not(d == bytes(n)))
+            ctx.require(SG.verify_sign(pk, m ^ d if ctx.symbolic else bytes(a ^ b for a, b in zip(m, d)), sig) is False, 'fails for any other message')
+        elif alter == 'msglen':
+            ctx.require(SG.verify_sign(pk, m + b'\x00', sig) is False, 'fails for a longer message')
+        elif alter == 'sig':
+            d = ctx.bytes_('delta', 64)
+            ctx.assume(Not(d == bytes(64)))
+            ctx.require(SG.verify_sign(pk, m, sig ^ d if ctx.symbolic else bytes(a ^ b for a, b in zip(sig, d))) is False, 'fails for any altered signature')
+        elif alter == 'key':
+            other = ctx.bytes_('seed2', 32)
+            if ctx.symbolic:
+                pk2 = key.__class__(other).verify_key.encode()
+                ctx.assume(Not(pk2 == pk))
+            else:
+                from nacl.signing import SigningKey
+                pk2 = SigningKey(other).verify_key.encode()
+                ctx.assume(pk2 != pk)
+            ctx.require(SG.verify_sign(pk2, m, sig) is False, 'fails under any other key')
+    finally:
+        if saved:
+            SG.VerifyKey, SG.exc, SG.crypto_sign, CI.ed25519Private, SG.SignedMessage = saved
+
+
 def h_contract(ctx):
     """validation of the environment model on fixed vectors against the real primitives (not the deciding step)"""
     import hashlib
@@ -175,6 +383,15 @@ def instances(tier, seed):
     yield 'h_channel', dict(n=7, third=True)
 
 
+    for n in (0, 1, 32, 45):
+        for alter in ('msg', 'msglen', 'sig', 'key'):
+            yield 'h_sign', dict(n=n, alter=alter)
+    positions = (0, 1, 11, 23) if tier == 'quick' else range(24)
+    for pos in positions:
+        for base in (0, 2044, 1020) if tier == 'quick' else (0, 4, 1020, 1024, 2040, 2044):
+            yield 'h_mnemonic', dict(pos=pos, base=base)
+
+
 def twins(tier, seed):
     yield 'h_channel', dict(n=4, twin='wrongdir')
 
@@ -186,5 +403,5 @@ OUTSIDE = ['the signature and mnemonic clauses of the property (libsodium Ed2551
            'X25519, Ed25519->Curve25519 conversion, AES themselves', 'plaintexts longer than 64 bytes']
 STUBS = ['x25519.scalar_mult: uninterpreted function with dh(a, pub(b)) = dh(b, pub(a))',
          'AES-CTR: data XOR KS(key, iv) with KS uninterpreted', 'hashlib.sha256: injective uninterpreted function',
-         'Client/Server key objects: plain holders of the symbolic secrets (nacl constructors bypassed)']
+         'Client/Server: real instances whose nacl key objects are replaced by holders of the symbolic secrets (nacl constructors bypassed); every peer under the same (host, port)']
 ASSUMPTIONS = ['stub contracts, validated on fixed vectors in h_contract against the real primitives']
